@@ -294,6 +294,32 @@ theorem in_uid_spec (u1 u2 : EntityUID) :
     applyBinary es .mem (.prim (.entityUID u1)) (.prim (.entityUID u2)) =
       .ok (vbool (u1 == u2 || match es.find? u1 with | some d => d.ancestors.contains u2 | none => false)) := rfl
 
+
+/-- a store is transitively closed when every entity's ancestor set contains the ancestors of its ancestors
+    (what C04 establishes for every store the library builds) -/
+def TransitivelyClosed (es : Entities) : Prop :=
+  ∀ u d, es.find? u = some d → ∀ a, a ∈ d.ancestors → ∀ d', es.find? a = some d' → ∀ b, b ∈ d'.ancestors → b ∈ d.ancestors
+
+/-- `in` is transitive on a transitively closed store (and reflexive by `in_refl`) -/
+theorem in_trans (h : TransitivelyClosed es) (u1 u2 u3 : EntityUID)
+    (h12 : inE es u1 u2 = true) (h23 : inE es u2 u3 = true) : inE es u1 u3 = true := by
+  unfold inE at *
+  simp only [Bool.or_eq_true, beq_iff_eq] at *
+  rcases h12 with rfl | h12
+  · exact h23
+  · rcases h23 with rfl | h23
+    · exact Or.inr h12
+    · right
+      cases h1 : es.find? u1 with
+      | none => simp [h1] at h12
+      | some d1 =>
+        simp only [h1, List.contains_eq_mem, decide_eq_true_eq] at h12 ⊢
+        cases h2 : es.find? u2 with
+        | none => simp [h2] at h23
+        | some d2 =>
+          simp only [h2, List.contains_eq_mem, decide_eq_true_eq] at h23
+          exact h u1 d1 h1 u2 h12 d2 h2 u3 h23
+
 /-- `in` against a set of entities is "in any element" -/
 theorem in_set_any (u : EntityUID) (us : List EntityUID) :
     applyBinary es .mem (.prim (.entityUID u)) (.set (us.map (fun x => .prim (.entityUID x)))) =
